@@ -1233,9 +1233,11 @@ impl ASN1Value {
             }
             (ASN1Type::SetOf(_), ASN1Value::LinkedNestedValue { value, .. })
             | (ASN1Type::SequenceOf(_), ASN1Value::LinkedNestedValue { value, .. })
+            | (ASN1Type::Set(_), ASN1Value::LinkedNestedValue { value, .. })
+            | (ASN1Type::Sequence(_), ASN1Value::LinkedNestedValue { value, .. })
                 if matches![**value, ASN1Value::ObjectIdentifier(_)] =>
             {
-                // the same spelling, met through a reference to the list type
+                // the same spelling, met through a reference to the list or struct type
                 value.link_with_type(tlds, ty, type_name)
             }
             (ASN1Type::SetOf(_), ASN1Value::ObjectIdentifier(val))
